@@ -82,8 +82,9 @@ def _norm_obs(o, strip_reserved):
     o = dict(o)
     o.pop("existing_layers", None)
     hg = o.pop("__hg_meta__")
-    for q in EDGE_META_Q:
-        if q in o:
+    for q in list(o):
+        # also the filtered listings, whose keys are ("edges_meta", <filter>)
+        if q in EDGE_META_Q or (isinstance(q, tuple) and q and q[0] in EDGE_META_Q):
             o[q] = {k: (jnorm({f: x for f, x in v.items()
                                if not (strip_reserved and f in RESERVED)})
                         if isinstance(v, dict) else v) for k, v in o[q].items()}
